@@ -122,7 +122,7 @@ async def scenario(sc: dict) -> dict:
                 await asyncio.sleep(j["at"] / 1e6)
                 await run.enqueue_job(j)
     lt = asyncio.ensure_future(late())
-    await run.run_worker(horizon_s=sc.get("horizon_s", 9.0), signals=False)
+    await run.run_worker(horizon_s=sc.get("horizon_s", 9.0), signals=False, tasks_limit=sc.get("tasks_limit", 1000))
     await asyncio.sleep(0.2)
     rt.cancel()
     lt.cancel()
@@ -215,6 +215,21 @@ def run(ctx) -> Result:
         nstores = o["run"].store_calls
         if k >= nstores:
             break
+    # "never stops the worker": every store fails while the worker has only one or two slots — every job is executed all the same
+    for tl in (1, 2):
+        jobs = [{"id": f"w{i}", "retries": 0, "store_result": True, "timeout": 2 * S, "result_ttl": 60 * S,
+                 "plan": [{"k": "ret", "value": i} if i % 3 else {"k": "raise", "msg": f"w{i}"}]} for i in range(7)]
+        sc = {"jobs": jobs, "converter": "basic", "policy": {"kind": "const", "us": 200_000}, "horizon_s": 7.0, "store_fail_all": True,
+              "tasks_limit": tl}
+        o = vtime.run(lambda loop, s=sc: scenario(s), budget=40_000_000)
+        check(o, model, res, f"store-fails-always-limit{tl}")
+        executed = {e["id"] for e in o["run"].events if e["kind"] == "actor_start"}
+        res.dist[f"store-fails-always:limit{tl}"] += len(jobs)
+        missing = [j["id"] for j in jobs if j["id"] not in executed]
+        if missing:
+            res.bad("impl", "a failure to store a result stopped the worker: jobs waiting behind it were never executed",
+                    case={"label": f"store-fails-always-limit{tl}", "tasks_limit": tl, "jobs": len(jobs)},
+                    observed={"never_executed": missing}, expected="all executed")
     return res
 
 
